@@ -130,6 +130,26 @@ def _test(e, base, env) -> bool:
     raise Unsupported(f'condition `{ast.unparse(e)}`')
 
 
+def _bulk_add(st):
+    """`X.update(E for .. in .. if ..)` / `X |= {E for ..}` is the loop nest adding E once per iteration -> that loop nest, or None"""
+    comp = recv = None
+    if isinstance(st, ast.Expr) and isinstance(st.value, ast.Call) and isinstance(st.value.func, ast.Attribute) \
+            and st.value.func.attr == 'update' and len(st.value.args) == 1 and not st.value.keywords:
+        comp, recv = st.value.args[0], st.value.func.value
+    elif isinstance(st, ast.AugAssign) and isinstance(st.op, ast.BitOr):
+        comp, recv = st.value, st.target
+    if not isinstance(comp, (ast.GeneratorExp, ast.SetComp, ast.ListComp)):
+        return None
+    body: list = [ast.Expr(value=ast.Call(func=ast.Attribute(value=recv, attr='add', ctx=ast.Load()), args=[comp.elt], keywords=[]))]
+    for g in reversed(comp.generators):
+        for cond in reversed(g.ifs):
+            body = [ast.If(test=cond, body=body, orelse=[])]
+        body = [ast.For(target=g.target, iter=g.iter, body=body, orelse=[])]
+    node = body[0]
+    ast.copy_location(node, st)
+    return ast.fix_missing_locations(node)
+
+
 def tuples_reaching(stmts, base: str, is_sink, sink_args):
     """all tuples of abstract elements with which a sink call is reached.
     is_sink(call) -> bool; sink_args(call) -> list of ast expressions whose values form the tuple"""
@@ -158,6 +178,8 @@ def tuples_reaching(stmts, base: str, is_sink, sink_args):
                 return True
             elif isinstance(st, ast.Pass):
                 continue
+            elif _bulk_add(st) is not None:
+                run([_bulk_add(st)], env)
             else:
                 for n in ast.walk(st):
                     if isinstance(n, ast.Call) and is_sink(n):
